@@ -114,7 +114,7 @@ func ruleHeapCursor(c *Ctx, r *Result, rule string) {
 				"structures.WritableFractalHeap.LoadFromFile", "structures.NewWritableFractalHeap":
 				r.Hold(rule, c.Name(f)+"#moves-cursor", c.InstrPos(fs.In), "insert / load / constructor")
 			default:
-				r.Viol(rule, c.Name(f)+"#"+fs.Key+"#cursor-moved-outside-insert", c.InstrPos(fs.In), "the header's insert cursor is what LoadFromFile turns into the next insert position; only inserts may advance it (space freed by delete is never reused)")
+				r.ViolMissing(c, f, rule, c.Name(f)+"#"+fs.Key+"#cursor-moved-outside-insert", c.InstrPos(fs.In), "the header's insert cursor is what LoadFromFile turns into the next insert position; only inserts may advance it (space freed by delete is never reused)")
 			}
 		}
 	}
